@@ -9,6 +9,13 @@ sys.path.insert(0, os.path.dirname(__file__))
 
 
 def main():
+    try:
+        # netCDF4 / HDF5 are not thread safe and emsarray opens its clip pieces with lock=False:
+        # keep dask single threaded inside the harness so a check cannot die of a segmentation fault
+        import dask
+        dask.config.set(scheduler='synchronous')
+    except ImportError:
+        pass
     pid = sys.argv[1]
     mod = importlib.import_module(f'props.{pid.lower()}')
     import common
